@@ -42,7 +42,9 @@ type wcase struct {
 	Nested bool `json:"-"`
 	// Seq marks one step of a write sequence (seq.go); input is then the sequence up to this step,
 	// which is what a violation records as its replay
-	Seq   bool `json:"-"`
+	Seq bool `json:"-"`
+	// Tag: another family's suffix of the call site in signatures (race.go: "+race", "+race-rival")
+	Tag   string `json:"-"`
 	input any
 }
 
@@ -69,6 +71,8 @@ type wout struct {
 	// another result (an updater is built once and may serve many writes)
 	Reused string
 	Inner  *wout
+	// Returned: the message the successful call returned (the other observation point of the property)
+	Returned proto.Message
 }
 
 func (o wout) text() string {
@@ -299,9 +303,9 @@ func (c wcase) runCode() wout {
 		var err error
 		panicked, msg := lib.Catch(func() {
 			if v != nil {
-				_, err = v.Set(src, opts...)
+				out.Returned, err = v.Set(src, opts...)
 			} else {
-				_, err = col.Update("x", src, opts...)
+				out.Returned, err = col.Update("x", src, opts...)
 			}
 		})
 		if panicked {
@@ -485,6 +489,7 @@ func (c wcase) monitor(mon *lib.Monitor, out wout) {
 	if c.Seq {
 		site += "+sequence"
 	}
+	site += c.Tag
 	W := c.effW()
 	if out.MaskMutated != "" {
 		mon.Violate(site+"/writable-mask-mutated", "a write changed the resource's configured writable mask (backing array of Paths included): "+out.MaskMutated, c.in(), "unchanged", "changed")
@@ -540,6 +545,10 @@ func (c wcase) monitor(mon *lib.Monitor, out wout) {
 		return
 	}
 	// accepted
+	if out.Returned != nil && !proto.Equal(out.Returned, out.After) {
+		// the two observation points of the property: the message the write returns and the next Get
+		mon.Violate(site+"/returned-differs-from-next-get", "the message returned by the successful write is not the message the next Get returns", c.in(), mt.CanonMsg(out.Returned), mt.CanonMsg(out.After))
+	}
 	if unknown != "" {
 		mon.Violate(site+"/rejects/unknown-path-accepted", "update mask names unknown path "+unknown+" but the write was accepted", c.in(), "InvalidArgument", "OK")
 	}
